@@ -32,7 +32,7 @@ ASSUMPTIONS = [
 EXHAUSTIVE = {"quick": True, "thorough": True}
 NCHUNKS = 16
 
-ATOMS = ["T", "F", "R", "P1", "P0", "PC1", "PC0", "SA", "SI", "SAb", "M"]
+ATOMS = ["T", "F", "R", "P1", "P0", "PC1", "PC0", "SA", "SI", "SAb", "SIx", "M"]
 POSITIONS = ["cand0", "cand1", "cand2", "parent", "grandparent", "ancestor-fallback", "choose", "enq"]
 LIBMISSING = xs.ImplementationMissingError
 
@@ -71,7 +71,7 @@ def eval_guard(e):
                 return False
             if x == "M":
                 return "missing"
-            return x in ("T", "P1", "PC1", "SA", "SAb")
+            return x in ("T", "P1", "PC1", "SA", "SAb")   # SI, SIx, F, P0, PC0 are false
         if x[0] == "not":
             v = ev(x[1], True)
             return v if v == "missing" else (not v)
@@ -108,9 +108,11 @@ def to_cfg(e, spelling):
             "P1": {"type": "gP", "params": {"v": 1}}, "P0": {"type": "gP", "params": {"v": 0}},
             "PC1": {"type": "gP", "params": (lambda a: {"v": a["context"]["one"]})},
             "PC0": {"type": "gP", "params": (lambda a: {"v": a["context"]["zero"]})},
-            "SA": {"type": "stateIn", "params": {"state": "#m.a.p.s"}},
-            "SAb": {"type": "stateIn", "params": {"state": "p.s"}},
+            "SA": {"type": "stateIn", "params": {"state": "#m.a.p.us"}},
+            "SAb": {"type": "stateIn", "params": {"state": "p.us"}},
             "SI": {"type": "stateIn", "params": {"state": "#m.b"}},
+            # inactive state `m.b.s`; the active leaf's id merely ENDS with the same letters
+            "SIx": {"type": "stateIn", "params": {"state": "s"}},
         }[e]
     kids = [to_cfg(c, spelling) for c in e[1:]]
     if e[0] == "not":
@@ -122,11 +124,28 @@ def to_cfg(e, spelling):
     return {"type": e[0], "children": kids}
 
 
-def build(e, spelling, position, key):
+# guards that are false / true but share their *type* (and shape) with atoms of the formula
+# under test: candidates evaluated in the same selection pass must not influence each other
+FALSE_GUARDS = ["gF", {"type": "gP", "params": {"v": 0}},
+                {"type": "stateIn", "params": {"state": "#m.b"}},
+                {"type": "and", "children": [{"type": "gP", "params": {"v": 0}}, "gT"]},
+                {"type": "not", "children": [{"type": "gP", "params": {"v": 1}}]}]
+TRUE_GUARDS = [None, {"type": "gP", "params": {"v": 1}},
+               {"type": "stateIn", "params": {"state": "#m.a.p.us"}},
+               {"type": "or", "children": [{"type": "gP", "params": {"v": 1}}, "gF"]}]
+
+
+def build(e, spelling, position, key, salt=0):
     g = to_cfg(e, spelling)
+    gF = FALSE_GUARDS[salt % len(FALSE_GUARDS)]
+    gFall = TRUE_GUARDS[(salt // 5) % len(TRUE_GUARDS)]
 
     def cand(guard, action):
         d = {"actions": [action]}
+        if guard == "gF":
+            guard = gF
+        if action == "fallback":
+            guard = gFall
         if guard is not None:
             d[key] = guard
         return d
@@ -151,8 +170,8 @@ def build(e, spelling, position, key):
         s_on["E"] = {"actions": [{"type": "xstate.enqueueActions", "params": {"callback": cb}}]}
     return {"id": "m", "initial": "a", "context": {"one": 1, "zero": 0}, "states": {
         "a": {"initial": "p", "on": a_on, "states": {
-            "p": {"initial": "s", "on": p_on, "states": {"s": {"on": s_on}}}}},
-        "b": {}}}
+            "p": {"initial": "us", "on": p_on, "states": {"us": {"on": s_on}}}}},
+        "b": {"initial": "s", "states": {"s": {}}}}}
 
 
 def logic(fired):
@@ -167,9 +186,9 @@ def logic(fired):
                 "gP": lambda c, e, params: params["v"] == 1})
 
 
-def run_one(res: Result, e, spelling, position, key, engine):
+def run_one(res: Result, e, spelling, position, key, engine, salt=0):
     fired = []
-    cfg = build(e, spelling, position, key)
+    cfg = build(e, spelling, position, key, salt)
     try:
         machine = create_machine(cfg, logic=logic(fired))
     except Exception as exc:  # noqa: BLE001
@@ -285,7 +304,7 @@ def _kind(e):
         return {"T": "named", "F": "named", "R": "raising", "M": "missing"}.get(
             e, "stateIn" if e.startswith("S") else "parameterised")
     return e[0] + ("+raising" if _contains(e, "R") else "") + \
-        ("+stateIn" if any(_contains(e, s) for s in ("SA", "SI", "SAb")) else "") + \
+        ("+stateIn" if any(_contains(e, s) for s in ("SA", "SI", "SAb", "SIx")) else "") + \
         ("+params" if any(_contains(e, s) for s in ("P1", "P0", "PC1", "PC0")) else "")
 
 
@@ -318,7 +337,7 @@ def run_chunk(spec):
                     continue
                 if i % 2048 == ci:
                     wd.arm("i=%d" % i)
-                run_one(res, e, spelling, position, key, engine)
+                run_one(res, e, spelling, position, key, engine, salt=i)
                 if n < 1 and ci == 0 and composite:
                     res.sample({"expr": repr(e), "spelling": spelling, "position": position,
                                 "key": key, "engine": engine, "config": repr(build(e, spelling, position, key))[:900]})
@@ -333,7 +352,7 @@ def run_chunk(spec):
         if j % 512 == 0:
             wd.arm("deep=%d" % j)
         run_one(res, e, rng.choice(["children", "params"]), rng.choice(POSITIONS),
-                rng.choice(["guard", "cond"]), rng.choice(["sync", "async"]))
+                rng.choice(["guard", "cond"]), rng.choice(["sync", "async"]), salt=j)
         res.count("formulas.sampled-deeper")
     wd.disarm()
     return res.to_json()
